@@ -34,7 +34,7 @@ func genWK(gp wl.GenParams, cp wl.CfgParams) func(t *rapid.T) WKCase {
 }
 
 func specOpts(k wl.Config) specdec.Options {
-	return specdec.Options{SkipMagic: k.SkipMagic, Decompress: map[string]func([]byte, uint64) ([]byte, error){wl.CustomCompression: mc.XorBytes}}
+	return specdec.Options{SkipMagic: k.SkipMagic, Decompress: map[string]func([]byte, uint64) ([]byte, error){wl.CustomCompression: mc.XorBytes, wl.CustomCompressionHdr: mc.XorHdrBytes}}
 }
 
 func expectedLibrary(w *wl.Workload, k wl.Config) string {
